@@ -3,7 +3,7 @@ NEXT XNext
 CONSTANTS
   Templates <- MCTemplates
   ResKinds <- SmallResKinds
-  SinkPats <- MCSinkPats
+  SinkPats <- QSinkPats
   StaticPrefixes <- MCStaticPrefixes
   Methods <- MCMethods
   Paths <- MCPaths
